@@ -319,7 +319,9 @@ def rule_L6(ctx: Ctx) -> None:
     ok = "if isinstance(tokens, str):\n        tokens = tokens.split()" in t and "not maze_tokenizer.is_legacy_equivalent()" in t and "return cls._from_tokens_AOTP(tokens, maze_tokenizer)" in t
     ctx.judge(ft, ok, {}, "from_tokens accepts a list or a space-joined string; only legacy tokenizers and legacy-equivalent modular ones are supported")
     at = ctx.index.func(f"{LM}.LatticeMaze._as_tokens")
-    ok = "coords_raw: list[CoordTup | str] = self._as_coords_and_special_AOTP()" in X.U(at.node) and "maze_tokenizer.coords_to_strings(coords=coords_raw, when_noncoord='include')" in X.U(at.node)
+    cs = [c for c in X.calls(at.node) if X.U(c.func) == "maze_tokenizer.coords_to_strings"]
+    ok = len(cs) == 1 and X.same_expr_x(N.kwarg(cs[0], "coords") or (cs[0].args[0] if cs[0].args else None), at.node, "self._as_coords_and_special_AOTP()") \
+        and X.same_expr(N.kwarg(cs[0], "when_noncoord"), "'include'")
     ctx.judge(at, ok, {}, "the legacy writer converts the coordinate tuples with the tokenizer's own coords_to_strings, keeping the special tokens")
 
 
